@@ -19,7 +19,7 @@ import (
 )
 
 func init() {
-	fw.Register(&fw.Check{ID: "C22", Level: "model_checking", Run: runC22, QuickBudget: 100, ThoroughBudget: 900})
+	fw.Register(&fw.Check{ID: "C22", Level: "model_checking", Run: runC22, QuickBudget: 240, ThoroughBudget: 900})
 }
 
 type c22Feature struct {
@@ -247,11 +247,12 @@ func runC22(c *fw.Ctx) {
 	c.Bound("features", fn)
 	c.Bound("max_features_combined", maxF)
 	c.Bound("operations", on)
-	c.SetRule("repository states = git-built histories (quick: branch+merge, two roots; thorough also linear) x every subset of <= max_features_combined of 16 features (staged new blob, staged edit, staged executable and symlink (loose / packed), staged blob already packed, detached HEAD on an unreferenced commit, annotated tags of commit/tree/tag-of-tag, annotated tag of a blob, a ref that exists only in packed-refs, a shallow root whose ancestors git pruned, a promisor-marked pack, an unmerged index whose stage 1-3 blobs exist nowhere else, history spread over two packs plus loose objects, a linked worktree with a detached HEAD on its own commit and its own staged blob, everything packed + loose duplicate, unreachable loose object) x 9 GC operation sequences (Prune with/without age limit, RepackObjects ofs/ref, with a pack-age limit, compositions including the same repack twice); model = set of objects git reports reachable from all refs, HEAD (of every worktree) and the index (of every worktree) (rev-list --objects --all --indexed-objects HEAD + ls-files -s) BEFORE the operation, with their bytes; after the operation every such object must be readable with identical type and bytes through the same and a fresh go-git storage and through real git cat-file, and git fsck must find no missing object; an operation that returns an error must have lost nothing (counted in refused_operations); distinct = (history, feature set, operation, object-set digest, refused or not)")
+	c.SetRule("repository states = git-built histories (quick: branch+merge with a side branch; thorough also two roots and linear) x every subset of <= max_features_combined of 16 features (staged new blob, staged edit, staged executable and symlink (loose / packed), staged blob already packed, detached HEAD on an unreferenced commit, annotated tags of commit/tree/tag-of-tag, annotated tag of a blob, a ref that exists only in packed-refs, a shallow root whose ancestors git pruned, a promisor-marked pack, an unmerged index whose stage 1-3 blobs exist nowhere else, history spread over two packs plus loose objects, a linked worktree with a detached HEAD on its own commit and its own staged blob, everything packed + loose duplicate, unreachable loose object) x 9 GC operation sequences (Prune with/without age limit, RepackObjects ofs/ref, with a pack-age limit, compositions including the same repack twice); model = set of objects git reports reachable from all refs, HEAD (of every worktree) and the index (of every worktree) (rev-list --objects --all --indexed-objects HEAD + ls-files -s) BEFORE the operation, with their bytes; after the operation every such object must be readable with identical type and bytes through the same and a fresh go-git storage and through real git cat-file, and git fsck must find no missing object; an operation that returns an error must have lost nothing (counted in refused_operations); distinct = (history, feature set, operation, object-set digest, refused or not)")
 	c.Assume("git 2.39.5 defines reachability; reflog-only reachability is not part of the statement")
-	dags := []fw.DAG{{Parents: [][]int{{}, {0}, {0}, {1, 2}}}, {Parents: [][]int{{}, {}, {0, 1}}}}
+	// quick: the branch+merge history (it has the side branch); thorough: also two roots and linear
+	dags := []fw.DAG{{Parents: [][]int{{}, {0}, {0}, {1, 2}}}}
 	if c.Thorough() {
-		dags = append(dags, fw.DAG{Parents: [][]int{{}, {0}}})
+		dags = append(dags, fw.DAG{Parents: [][]int{{}, {}, {0, 1}}}, fw.DAG{Parents: [][]int{{}, {0}}})
 	}
 	c.Bound("histories", len(dags))
 	type state struct {
